@@ -166,3 +166,20 @@ W void w_shared_strings(const char* s, const char* t, size_t n, Shr* o) {
   o->size_after = unsigned(doc.size()); o->calls_end = arena.calls; }
   o->frees_after_clear = arena.n_free;
 }
+// ---- arrays with trailing nulls (C18) and unbound sources (C04)
+W unsigned w_arr_eq_null(int32_t x, int32_t z, unsigned n1extra_null, unsigned n2extra_null) {   // [x, null?] vs [z, null?]
+  arena.reset(); JsonDocument d1(&arena), d2(&arena);
+  d1.add(x); if (n1extra_null) d1.add(nullptr); d2.add(z); if (n2extra_null) d2.add(nullptr);
+  unsigned r = (d1.as<JsonVariantConst>() == d2.as<JsonVariantConst>()) ? 1u : 0u;
+  r |= (d2.as<JsonVariantConst>() == d1.as<JsonVariantConst>()) ? 2u : 0u;
+  return r;
+}
+W void w_set_unbound(int32_t a, unsigned which, Hist* h) {   // [a]; then add an UNBOUND array / object / variant reference: it must add null
+  arena.reset(); JsonDocument doc(&arena), other(&arena); doc.add(a);
+  bool ok;
+  if (which == 0) ok = doc.add(other["missing"].as<JsonArrayConst>());
+  else if (which == 1) ok = doc.add(other["missing"].as<JsonObjectConst>());
+  else ok = doc.add(other["missing"].as<JsonVariantConst>());
+  h->ok_mask = ok; observe_arr(doc, h);
+  h->frees = doc[1].isNull() ? 1 : 0; h->calls_before = doc[1].is<JsonArrayConst>() ? 1 : 0; h->calls_after = doc[1].is<JsonObjectConst>() ? 1 : 0;
+}
